@@ -274,6 +274,12 @@ def run_property(prop, tier, seed, args):
                               "only by a run in which every obligation is discharged.")
     else:
         ev["level"] = "exploration"
+    # a property decided mainly by bounded stand-ins says so: the contracts module may lower (never raise) the level
+    declared = getattr(mod, "LEVEL", None) if mod else None
+    if declared in ("exploration", "other") and ev["level"] == "proof":
+        ev["level"] = declared
+        if declared == "other":
+            cov["explanation"] = getattr(mod, "LEVEL_REASON", "level lowered by the contracts module")
     ev["coverage"] = cov
     ev["assumptions"] = ASSUMPTIONS_COMMON + (list(getattr(mod, "ASSUMPTIONS", [])) if mod else []) + \
         (list(getattr(smod, "ASSUMPTIONS", [])) if smod else [])
